@@ -73,3 +73,19 @@ package namesys
 //@   site[cache_fill_key] call:cacheSet : arg1 == pathString(nameAsPath(ipnsName))
 //@   site[cache_fill_value] call:cacheSet : arg2 == value
 //@   site[cache_invalidate_key] call:cacheInvalidate : arg1 == pathString(nameAsPath(ipnsName))
+
+// ---- C29: the unresolved remainder is appended to the resolved path ------------------------------
+// A remainder that ends in "/" - also when it is nothing but that slash - is appended with its trailing
+// slash: the shortcut that returns the resolved base as it is applies only when nothing at all is left.
+//@ spec strEndsWith(s string, suffix string) bool
+//@ func ext strings.HasSuffix
+//@   pure
+//@   ensures result == strEndsWith(s, suffix)
+//@ func iface github.com/ipfs/boxo/path.Path.Segments
+//@ func joinPaths
+//@   prop C29
+//@   arith int-assumed
+//@   modifies all
+//@   ensures[a_trailing_slash_is_appended_too] resolvedBase != nil && err == nil && strEndsWith(pathString(unresolvedPath), "/") ==> called("call:Join#0")
+//@   ensures[nothing_left_returns_the_base] resolvedBase != nil && !called("call:Join#0") ==> err == nil && result0 == resolvedBase
+//@   site[appended_to_the_resolved_base] call:Join : arg0 == resolvedBase && len(arg1) >= 1 && (strEndsWith(pathString(unresolvedPath), "/") ==> arg1[len(arg1) - 1] == "")
